@@ -169,6 +169,16 @@ class OutgoingRIB(Cache):
         for route in self.cached_routes(list(self.families)):
             self.add_to_rib(route, True)
 
+        # without adj-rib-out nothing is cached and reset() emptied the queue: the routes of the
+        # configuration are all that is known of what the peer had, they must be sent again
+        if not self.cache:
+            for route in new:
+                if route.nlri.family().afi_safi() not in self.families:
+                    continue
+                # a route held back by its watchdog waits for 'announce watchdog <name>'
+                if not self._held_back(route.index()):
+                    self.add_to_rib(route, True)
+
         for index in list(indexed):
             self._forget_watchdog(index)
             self.del_from_rib(indexed.pop(index))
